@@ -399,7 +399,20 @@ func RunPlans(f *Factory, plans io.Reader, trace io.Writer, names []string, shar
 
 			if c.Op == "wrap" && len(c.Flag) > 0 {
 				i++
-				if err := tenc.Encode(s.WrapWith(pl.Name, i, c.Flag[0], names)); err != nil {
+				// the recorded pseudo call carries the wrapper's parameters in its operands (see WrapWith)
+				kind := c.Flag[0]
+
+				switch {
+				case kind == "sub":
+					kind = "sub:" + c.P.Render()
+					if len(c.P.Parts) == 0 {
+						kind = "sub:/"
+					}
+				case kind == "failfs" && len(c.Flag) > 1:
+					kind = fmt.Sprintf("failfs:%s:%d", c.Flag[1], c.N)
+				}
+
+				if err := tenc.Encode(s.WrapWith(pl.Name, i, kind, names)); err != nil {
 					return n, err
 				}
 
